@@ -133,8 +133,7 @@ def run_case(case, tier="quick"):
                     e = e.xreplace(rep)
                     if e.free_symbols:
                         raise KeyError(str(e.free_symbols))
-                    e = sympy.nsimplify(e) if not e.is_Rational else e
-                    return Fraction(int(e.p), int(e.q))
+                    return common.exact_fraction(e)
 
                 E = {}
                 for M in monomials:
@@ -158,6 +157,8 @@ def run_case(case, tier="quick"):
         return dict(base, status="gave_up", bucket=str(e)[:60])
     except pd.CaseTimeout:
         return dict(base, status="gave_up", bucket="oracle_time_limit")
+    except common.NotRational as e:
+        return dict(base, status="gave_up", bucket="irrational_coefficient")
     except KeyError as e:
         return dict(base, status="violation", bucket="unexpected_symbols", detail={"program": text, "normal_form": nform, "msg": str(e)[:200]})
     return dict(base, status="ok", counters={"monomials_checked": len(monomials)})
